@@ -151,7 +151,8 @@ def run_case(config, reply, remote):
             if reply.get('permute'):
                 answers = answers[1::2] + answers[0::2]
             return [fd.incoming_pdu(fd.ac_spec(answers, reply.get('max', 16384), rec['spec']['called'],
-                                               rec['spec']['calling']))]
+                                               rec['spec']['calling'], ver=reply.get('ver', 1),
+                                               reserved=reply.get('reserved', 0)))]
         if rec['kind'] == 'pdu' and rec['spec'].get('t') == 5:
             return [fd.incoming_pdu({'t': 6, 'r1': 0, 'r2': 0})]
         return []
@@ -317,7 +318,9 @@ replies = st.fixed_dictionaries({
     'pattern': st.lists(st.tuples(st.sampled_from([0, 0, 0, 1, 2, 3, 4]), st.integers(0, 2)), min_size=1, max_size=7),
     'permute': st.booleans(), 'max': st.sampled_from([0, 4096, 16384, 2 ** 32 - 1]),
     # PS3.8 9.3.3.2: the transfer syntax of a rejected context is not significant - a peer may fill it in
-    'ts_on_reject': st.booleans()})
+    'ts_on_reject': st.booleans(),
+    # PS3.8 9.3.3: protocol-version is a bit mask, only bit 0 is tested; reserved fields are not tested
+    'ver': st.sampled_from([1, 1, 3, 0x8001, 0xFFFF]), 'reserved': st.sampled_from([0, 0, 0x2A2A])})
 remotes = st.fixed_dictionaries({'aet': st.sampled_from(['SRV', 'REMOTE', 'X' * 16]), 'address': st.just('peer.example'),
                                  'port': st.just(104)}).flatmap(
     lambda r: st.sampled_from([r, dict(r, username='user'), dict(r, username='user', password='secret')]))
@@ -356,7 +359,8 @@ def run_exhaustive_replies(ctx):
         opts = [(r, c) for r in (0, 1, 2, 3, 4) for c in ((0, 1) if r == 0 else (0,))]
         for pattern in itertools.product(opts, repeat=ncls):
             for permute in (False, True):
-                reply = {'pattern': list(pattern), 'permute': permute, 'max': 16384, 'ts_on_reject': permute}
+                reply = {'pattern': list(pattern), 'permute': permute, 'max': 16384, 'ts_on_reject': permute,
+                         'ver': (1, 3, 0xFFFF)[len(pattern) % 3] if permute else 1}
                 cfg = config
                 if permute:
                     # same classes, but the syntaxes are changed between the two calls and an earlier
